@@ -1,7 +1,8 @@
 """C15 — wire types: code tables, serializer shape, reader/writer field tables, duplicate guards."""
 import re
 
-from .common import fkey, where, short, controlling_comparisons, arg_is_local, block_line
+from .common import fkey, where, short, controlling_comparisons, arg_is_local, block_line, forward_taint, CORE, SERVER, TYPES
+from ..facts import is_test_body
 from ..facts import op_place, op_const, AnchorLost
 from .. import flow
 from ..interp import Interp, Enum, Sym, Unsupported, unit_variants
@@ -16,8 +17,11 @@ EXPLANATION = (
     "serialises `id` exactly once, exactly one of `result`/`error`, and `jsonrpc` at most once and only on the Some arm; "
     "R3 the member names recognised by the response field visitor equal the names the serializer emits "
     "({jsonrpc,result,error,id}); R4 each of the four member slots in visit_map is assigned only under a failed "
-    "is_some() test (duplicate members rejected). NOT decided: the final acceptance table of visit_map, value round "
-    "trips of ids/payloads (serde_json, untagged enums)."
+    "is_some() test (duplicate members rejected); R5 the final acceptance decision of visit_map, extracted as a table "
+    "over (jsonrpc, result, error) in {absent,present}^3 with id present, accepts exactly the rows with exactly one of "
+    "result/error and carries that member, and a missing id is rejected before it; R6 no string assembled with format! is "
+    "ever taken as wire JSON (RawValue::from_string, parse into RawValue, connection sink) in types/core/server. "
+    "NOT decided: value round trips of ids/payloads (serde_json, untagged enums)."
 )
 RULE_TEXT = "instances = table rows, serializer paths, field-name sets, guarded assignments; non-trivial = a table row or a path count"
 TRUSTED = ["rustc MIR", "serde's SerializeStruct / MapAccess contracts"]
@@ -229,7 +233,96 @@ def r4_duplicate_guards(ctx):
     R.floor("C15.R4", n, 4, "guarded member assignments in visit_map")
 
 
-RULES = [r1_code_tables, r2_serializer, r3_field_tables, r4_duplicate_guards]
+def r5_acceptance_table(ctx):
+    """final decision of Response::visit_map over (jsonrpc, result, error) present/absent, id present"""
+    F, R = ctx.F, ctx.R
+    vm = F.one(r"response::Response<'de, T> as .*Deserialize<'de>>::deserialize::Visitor<T> as .*>::visit_map$")
+    names = ("jsonrpc", "result", "error")
+    start = None
+    for bi, blk in enumerate(vm.blocks):
+        for si, st in enumerate(blk["st"]):
+            if st["s"] == "assign" and st["rv"]["k"] == "agg" and st["rv"]["ak"] == "tuple" and len(st["rv"]["ops"]) == 3:
+                ps = [op_place(o) for o in st["rv"]["ops"]]
+                if all(p_ is not None for p_ in ps):
+                    got = []
+                    for p_ in ps:
+                        nm = {vm.local_name(l) for l in flow._local_copies_back(vm, p_["l"], 6)}
+                        got.append(nm)
+                    if all(n in g for n, g in zip(names, got)):
+                        start = (bi, si, [p_["l"] for p_ in ps])
+    if start is None:
+        raise AnchorLost("the (jsonrpc, result, error) decision in Response::visit_map")
+    OPT = "std::option::Option"
+    handlers = [
+        (re.compile(r"de::Error::(duplicate_field|missing_field|custom)$|::duplicate_field$|::missing_field$"), lambda it, n, a: Sym("err:" + n.split("::")[-1])),
+        (re.compile(r"Extensions::new$"), lambda it, n, a: Sym("ext")),
+    ]
+    it = Interp(F, call_handlers=handlers)
+    id_locals = vm.locals_named("id")
+    n = 0
+    for j in (False, True):
+        for r in (False, True):
+            for e in (False, True):
+                n += 1
+                env = {}
+                vals = [Enum(OPT, 1, "Some", [Sym("two")]) if j else Enum(OPT, 0, "None", []),
+                        Enum(OPT, 1, "Some", [Sym("res")]) if r else Enum(OPT, 0, "None", []),
+                        Enum(OPT, 1, "Some", [Sym("err")]) if e else Enum(OPT, 0, "None", [])]
+                for l, v in zip(start[2], vals):
+                    env[l] = [v]
+                for nm, v in zip(names, vals):
+                    for l in vm.locals_named(nm):
+                        env.setdefault(l, [v])
+                for l in id_locals:
+                    env.setdefault(l, [Sym("id")])
+                try:
+                    got = it.run_from(vm, start[0], start[1], env)
+                except Unsupported as ex:
+                    raise AnchorLost("Response::visit_map's final decision is not a plain table any more (%s)" % ex)
+                accepted = isinstance(got, Enum) and got.vname == "Ok"
+                want = (r != e)
+                R.check(accepted == want, "C15.R5", "accept:jsonrpc=%d,result=%d,error=%d" % (j, r, e), "jsonrpc %s, result %s, error %s -> %s" % ("present" if j else "absent/null", r, e, "accepted" if want else "rejected"), "a response object with jsonrpc %s, result %s and error %s is %s (the parser must accept exactly the objects with exactly one of result/error)" % ("present" if j else "absent/null", "present" if r else "absent", "present" if e else "absent", "accepted" if accepted else "rejected"), "%s:%d" % (vm.file, block_line(vm, start[0])))
+                if accepted and want:
+                    resp = got.fields[0]
+                    payload_ok = False
+                    if hasattr(resp, "fields"):
+                        for f in resp.fields:
+                            if isinstance(f, Enum) and f.vname in ("Success", "Error"):
+                                payload_ok = (f.vname == "Success") == r and f.fields and f.fields[0] == (Sym("res") if r else Sym("err"))
+                    R.check(payload_ok, "C15.R5", "payload:jsonrpc=%d,result=%d,error=%d" % (j, r, e), "the accepted object carries its own %s" % ("result" if r else "error"), "the accepted object does not carry its own result/error member (%r)" % (resp,), "%s:%d" % (vm.file, block_line(vm, start[0])))
+    R.floor("C15.R5", n, 8, "rows of the acceptance table")
+    # a missing id is an error
+    ok_id = False
+    for c in vm.calls_to(r"Option::<.*>::ok_or_else$"):
+        if any(vm.local_name(l) == "id" for l in flow._local_copies_back(vm, op_place(c.args[0])["l"], 6)) and vm.dominates(c.bb, start[0]):
+            ok_id = True
+    R.check(ok_id, "C15.R5", "missing-id-is-error", "an object without id is rejected before the decision", "Response::visit_map no longer rejects an object without an id", "%s:%d" % (vm.file, vm.lo))
+
+
+def r6_no_handmade_json(ctx):
+    """wire JSON is produced by serde_json, never assembled with format!: no format!-built string reaches a place where it
+    is taken as JSON (RawValue::from_string, a parse into Box<RawValue>, the connection sink)"""
+    F, R = ctx.F, ctx.R
+    SINK = r"RawValue::from_string$|MethodSink::(send|try_send|send_timeout)$|^serde_json::(de::)?from_str$"
+    n = 0
+    for b in F.real_bodies():
+        if b.crate not in (CORE, SERVER, TYPES) or is_test_body(b):
+            continue
+        sinks = [c for c in b.calls_to(SINK) if not (c.callee or "").endswith("from_str") or (c.ga and "RawValue" in c.ga[-1])]
+        if not sinks:
+            continue
+        fm = [x for x in b.calls_to(r"^std::fmt::format$|^alloc::fmt::format$|^std::string::String::push_str$") if (x.callee or "").endswith("format")]
+        tainted = forward_taint(b, {x.dest["l"] for x in fm}) if fm else set()
+        for c in sinks:
+            n += 1
+            argi = 1 if "MethodSink" in (c.name() or "") else 0
+            p = op_place(c.args[argi]) if len(c.args) > argi else None
+            bad = p is not None and p["l"] in tainted
+            R.check(not bad, "C15.R6", "%s:%s#%d" % (fkey(b), c.name().split("::")[-1], sorted(x.bb for x in sinks).index(c.bb)), "JSON taken here was not assembled with format!", "%s takes a string assembled with format! as JSON (%s): ids / method names that need escaping produce invalid or different JSON" % (short(b.path), short(c.name())), where(c))
+    R.floor("C15.R6", n, 3, "places where a string is taken as wire JSON")
+
+
+RULES = [r1_code_tables, r2_serializer, r3_field_tables, r4_duplicate_guards, r5_acceptance_table, r6_no_handmade_json]
 
 LEVEL_TEXT = (
     "Decision tables and structural facts extracted exactly from the type-checked serde code: the error-code tables are "
